@@ -136,8 +136,8 @@ func init() {
 func init() {
 	register(&PropDef{
 		ID: "C15", Patterns: []string{"./interp"},
-		Extra:   func(r *Run) { r.phaseOrder(); r.depsThroughFunctions() },
-		Covered: []string{"getVarDependencies records every reference to another package-level variable in the initialiser (all positions except selector field names)", "genGlobalVarDecl: canInit is 'all dependencies already emitted'", "phase order root -> variables -> inits -> main in Execute and importSrc", "importSrc evaluates a package at most once", "only dependencies of the same batch block a declaration", "exactly the receiver-less functions named init are collected, appended in walk order"},
+		Extra:   func(r *Run) { r.phaseOrder(); r.mainLast(); r.depsThroughFunctions() },
+		Covered: []string{"getVarDependencies records every reference to another package-level variable in the initialiser (all positions except selector field names)", "genGlobalVarDecl: canInit is 'all dependencies already emitted'", "phase order root -> variables -> inits -> main in Execute and importSrc", "importSrc evaluates a package at most once", "only dependencies of the same batch block a declaration", "exactly the receiver-less functions named init are collected, appended in walk order", "main is put on the run list once, outside every loop, after every append of init functions (importSrc, CompileAST)"},
 		Uncov:   []string{"dependencies through the bodies of functions and methods (known finding)", "that the emitted order is the earliest-ready order of the Go spec (whole-loop invariant not attempted)"},
 		Trusted: []string{"T1 go toolchain, solvers", "T2 govc", "scope.lookup and childPos are pure functions"},
 	})
